@@ -46,6 +46,9 @@ ASSUMPTIONS = [
     "GLIF files written behind the font's back for reload/reopen are well formed with unique identifiers "
     "(fontTools.glifLib refuses others before defcon sees them)",
     "python asserts enabled (no -O): they are defcon's rejection mechanism",
+    "Contour.reverse is exercised on contours fontTools' PointToSegmentPen can draw before and after the reversal "
+    "(reverse reads Contour.clockwise twice; on other contours that raises PenError or not depending on the cached "
+    "area representation, which is C03's subject); the probe uses fontTools itself",
 ]
 TRUSTED = [
     "random.choice inside defcon.tools.identifiers replaced by a scripted character source (candidates = model inputs)",
@@ -288,16 +291,47 @@ def gen_case(rng, maxlen):
         t = rng.randrange(NGLYPH)
         bases = [b for b in range(t + 1, NGLYPH)] + [MISSING]
         ops.append(["insComp", t, rng.randrange(4), rng.choice(bases), _pid(rng, 0.4)])
+    for _ in range(rng.randint(0, 3)):
+        ops.append(["insAnchor", rng.randrange(NGLYPH), rng.randrange(4), _pid(rng, 0.4), rng.random() < 0.5])
+    for _ in range(rng.randint(0, 3)):
+        ops.append(["insGuide", rng.choice([0, 1, 2, FONT, FONT]), rng.randrange(4), _pid(rng, 0.4), rng.random() < 0.5])
     for _ in range(rng.randint(3, maxlen)):
         ops.append(gen_op(rng, standalone, fresh, can_disk))
     # the lazily loaded glyph is most interesting when the very next op runs before anything looked at it
     return dict(ops=ops, standalone=standalone)
 
 
+def gen_shape_cases(rng, tier):
+    """every point-type pattern up to a length (sampled in the quick tier) x every contour-level operation that
+    edits the point list: validates the ported segment / reversal / drawability rules"""
+    import itertools
+    shapes = [s for L in range(5) for s in itertools.product(range(5), repeat=L)]
+    shapes += rng.sample(list(itertools.product(range(5), repeat=5)), 400)
+    if tier == "quick":
+        shapes = rng.sample(shapes, 120)
+    for shape in shapes:
+        ids = list(POOL) + [6, 7]
+        pts = [[t, ids[i] if rng.random() < 0.8 else None] for i, t in enumerate(shape)]
+        base = [["insContour", 0, 0, 8, pts]]
+        tails = [[["reverse", 0, 0]], [["reverse", 0, 0], ["reverse", 0, 0]], [["clearContour", 0, 0]]]
+        for si in range(max(1, len(shape))):
+            tails.append([["rmSegment", 0, 0, si, False]])
+            tails.append([["rmSegment", 0, 0, si, True]])
+            tails.append([["split", 0, 0, si]])
+            tails.append([["setStart", 0, 0, si]])
+        if tier == "quick":
+            tails = rng.sample(tails, min(len(tails), 4))
+        for tail in tails:
+            yield dict(ops=base + tail + [["rmContour", 0, 0], ["reinsContour", 0, 0, 0]],
+                       standalone=rng.random() < 0.3)
+
+
 def generate(rng, tier):
     n, maxlen = (700, 22) if tier == "quick" else (12000, 60)
     for _ in range(n):
         yield gen_case(rng, maxlen)
+    for c in gen_shape_cases(rng, tier):
+        yield c
 
 
 def neighbourhood(case, step, rng):
@@ -674,6 +708,13 @@ class World(object):
                 c.clear()
                 return
             if k == "reverse":
+                # Contour.reverse reads self.clockwise before and after reversing; on a contour fontTools cannot
+                # draw that raises PenError or not depending on the representation cache (C03's subject).
+                # Probe with fontTools itself and keep such contours out of the domain.
+                from fontTools.pens.pointPen import PointToSegmentPen, ReverseContourPointPen
+                from fontTools.pens.basePen import NullPen
+                c.drawPoints(PointToSegmentPen(NullPen()))
+                c.drawPoints(ReverseContourPointPen(PointToSegmentPen(NullPen())))
                 c.reverse()
                 return
             if k == "setContourId":
